@@ -134,17 +134,26 @@ def _nonzero_sign_changes(x):
     return idx
 
 
-def _ambient_density_difference(tam, prf, q):
-    """rho_a - rho of every stored row with the same real functions LagElement.update uses"""
+def _element_rows(tam, prf, q):
+    """per stored row, evaluated by the harness from the packed state and the profile: rho_a - rho, the element
+    temperature and the half-width b (the same formulas LagElement.update uses, l.3157-3176)"""
     sw = tam['seawater']
+    cp = float(sw.cp())
     n = q.shape[0]
-    dr = np.zeros(n)
+    dr, Te, b = np.zeros(n), np.zeros(n), np.zeros(n)
     for k in range(n):
         Pa, Ta, Sa = prf.get_values(float(q[k, 9]), ['pressure', 'temperature', 'salinity'])
-        T = q[k, 2] / (q[k, 0] * sw.cp())
+        T = q[k, 2] / (q[k, 0] * cp)
         S = q[k, 1] / q[k, 0]
-        dr[k] = sw.density(float(Ta), float(Sa), float(Pa)) - sw.density(float(T), float(S), float(Pa))
-    return dr
+        rho = sw.density(float(T), float(S), float(Pa))
+        dr[k] = sw.density(float(Ta), float(Sa), float(Pa)) - rho
+        Te[k] = T
+        V = math.sqrt(q[k, 3] ** 2 + q[k, 4] ** 2 + q[k, 5] ** 2) / q[k, 0]
+        b[k] = math.sqrt(q[k, 0] / (rho * math.pi * (q[k, 6] * V))) if V > 0 else float('nan')
+    return dr, Te, b
+
+
+WINDOW = 7          # stored steps after an exit during which the BDF history still holds pre-exit values (order 5 + start-up)
 
 
 def replay_python(q, dr, D, sd_max):
@@ -196,6 +205,10 @@ def check_simulation(ctx, scn, bpm, prf, parts, tam):
         col = int(np.arange(q.shape[1])[~posmask][bad[0][1]])
         ctx.violation('nonfinite-value', 'a stored element quantity / particle mass / heat / age / concentration is not finite',
                       dict(base, row=k, slot=col, value=float(q[k, col]), t=float(t[k])))
+    # ---- exit detected INDEPENDENTLY of the marks: Particle.track sets p_fac = 0 (and correct_particle_tracking then
+    # switches the particle off) in the first stored row in which the particle is farther from the centreline than the
+    # half-width b; the NaN marking is judged against that
+    dr, Te, bw = _element_rows(tam, prf, q)
     exits = {}
     for i, sl in enumerate(lay['particles']):
         X = q[:, sl['X'][0]:sl['X'][1]]
@@ -205,16 +218,51 @@ def check_simulation(ctx, scn, bpm, prf, parts, tam):
             k = int(np.argmax(np.isinf(X).any(axis=1) | (nanrow != allnan)))
             ctx.violation('position-marking', 'position slots of a particle are partly invalid (not all three NaN)',
                           dict(base, particle=i, row=k, X=[float(v) for v in X[k]]))
-        if nanrow.any():
-            k0 = int(np.argmax(nanrow))
-            exits[i] = k0
-            ctx.count('particle-exits')
-            if k0 == 0 or not nanrow[k0:].all():
-                ctx.violation('position-marking', 'NaN marking of an exited particle is not permanent (or present from the first row)',
-                              dict(base, particle=i, first_nan_row=k0))
-            if bool(parts[i].integrate):
-                ctx.violation('position-marking', 'positions are NaN-marked but the particle is still flagged integrate=True',
-                              dict(base, particle=i, first_nan_row=k0))
+            continue
+        lp = np.sqrt(np.sum(X ** 2, axis=1))
+        kg, ambiguous = None, False
+        for k in range(n):
+            if nanrow[k]:
+                break
+            if abs(lp[k] - bw[k]) <= 1e-9 * bw[k]:
+                ambiguous = True
+                break
+            if lp[k] > bw[k]:
+                kg = k
+                break
+        if ambiguous:
+            ctx.count('exit-geometry-ambiguous')
+            continue
+        first_nan = int(np.argmax(nanrow)) if nanrow.any() else None
+        if kg is None:
+            if first_nan is not None:
+                ctx.violation('marked-without-exit', 'positions of a particle are NaN-marked although it was never farther from the centreline than the half-width in a stored row',
+                              dict(base, particle=i, first_nan_row=first_nan, lp_over_b=float(lp[first_nan - 1] / bw[first_nan - 1]) if first_nan else None))
+            continue
+        ctx.count('particle-exits')
+        exits[i] = kg
+        if kg < n - 1:
+            if first_nan != kg + 1 or not nanrow[kg + 1:].all():
+                ctx.violation('exit-not-marked', 'a particle left the plume (distance from the centreline > half-width) in a stored row but its positions are not NaN-marked from the next row on',
+                              dict(base, particle=i, exit_row=kg, lp_over_b=float(lp[kg] / bw[kg]), first_nan_row=first_nan,
+                                   X_next=[float(v) for v in X[kg + 1]]))
+        if bool(parts[i].integrate):
+            ctx.violation('exit-not-marked', 'a particle left the plume in a stored row but is still flagged integrate=True at the end',
+                          dict(base, particle=i, exit_row=kg))
+    # ---- particle heat after heat transfer is switched off (correct_temperature): either the particle is still more than
+    # 0.5 K from the element temperature, or its stored heat is m*cp*T_element
+    for i, sl in enumerate(lay['particles']):
+        a_, e_ = sl['m']
+        cp_p = float(parts[i].cp)
+        for k in range(1, n):
+            msum = float(np.sum(np.where(q[k, a_:e_] < 0., 0., q[k, a_:e_])))
+            if not (msum > 0.) or not math.isfinite(q[k, sl['H']]):
+                continue
+            Tp = q[k, sl['H']] / (msum * cp_p)
+            if abs(Tp - Te[k]) < 0.5 * (1. - 1e-9) and not close(float(Tp), float(Te[k]), TOL['identity']):
+                ctx.violation('particle-heat-not-corrected', 'stored particle heat is neither that of a particle still exchanging heat (more than 0.5 K from the element) nor m*cp*T of the element temperature',
+                              dict(base, particle=i, row=k, T_particle=float(Tp), T_element=float(Te[k])))
+                break
     # ---- compound totals ---------------------------------------------------------------------------------
     worst = 0.
     for c in range(nch):
@@ -245,33 +293,44 @@ def check_simulation(ctx, scn, bpm, prf, parts, tam):
                     k = int(np.argmax(dev))
                     ctx.violation('inert-mass-changes', 'mass of an inert particle class is not constant',
                                   dict(base, particle=i, row=k, m0=float(m[0]), m=float(m[k])))
-    # ---- frozen masses after exit --------------------------------------------------------------------------
-    N = q.shape[1]
+    # ---- masses after exit: PER-STEP bounds.  tol = rtol*|m_exit| + atol is what one accepted step may add to a
+    # component with zero right-hand side.  Steps 1..WINDOW after the exit: the BDF history still holds pre-exit values
+    # (known finding exit-masses-drift) but cannot move the slot faster than the pre-exit trend; later steps: <= 1.5 tol
+    # per step and <= 5 tol in total
     worst_frozen = 0.
     drifts = []
-    for i, k0 in exits.items():
-        if k0 == 0:
-            continue
-        a, e = lay['particles'][i]['m']
-        ref = q[k0 - 1, a:e]                       # the state in which the exit was detected (particles[i].me)
-        for k in range(k0, n):
-            j = k - (k0 - 1)
-            allow = j * math.sqrt(N) * (VODE_RTOL * np.abs(ref) + VODE_ATOL)
-            d = np.abs(q[k, a:e] - ref)
-            with np.errstate(divide='ignore', invalid='ignore'):
-                worst_frozen = max(worst_frozen, float(np.nanmax(np.where(ref != 0, d / np.abs(ref), 0.))))
-            if np.any(d > allow):
-                c = int(np.argmax(d / allow))
-                # collected, the worst one over all simulations is reported first (run())
-                drifts.append((float(d[c] / allow[c]),
-                               dict(base, particle=i, exit_row=k0 - 1, row=k, steps_after_exit=j, slot=a + c,
-                                    mass_at_exit=float(ref[c]), mass=float(q[k, a + c]), allowed=float(allow[c]),
-                                    change=float(d[c]), change_over_allowed=float(d[c] / allow[c]),
-                                    change_over_rtol_m_plus_atol=float(d[c] / (j * (VODE_RTOL * abs(ref[c]) + VODE_ATOL))))))
-                break
+    for i, kg in exits.items():
+        a_, e_ = lay['particles'][i]['m']
+        ref = q[kg, a_:e_]                        # the state in which the exit was detected (particles[i].me)
+        tol = VODE_RTOL * np.abs(ref) + VODE_ATOL
+        lo = max(1, kg - 4)
+        trend = np.max(np.abs(np.diff(q[lo - 1:kg + 1, a_:e_], axis=0)) / np.diff(t[lo - 1:kg + 1])[:, None], axis=0) if kg >= 1 else np.zeros(e_ - a_)
+        for k in range(kg + 1, n):
+            j = k - kg
+            d = np.abs(q[k, a_:e_] - q[k - 1, a_:e_])
+            worst_frozen = max(worst_frozen, float(np.max(d / tol)))
+            info = dict(base, particle=i, exit_row=kg, row=k, steps_after_exit=j)
+            if j <= WINDOW:
+                over = d > 1.5 * trend * (t[k] - t[k - 1]) + tol
+                if np.any(over):
+                    c = int(np.argmax(over))
+                    ctx.violation('exit-masses-change', 'a mass slot of a particle that left the plume moves faster than before the exit (not an extrapolation of the integrator history)',
+                                  dict(info, slot=a_ + c, step_change=float(d[c]), pre_exit_rate_times_dt=float(trend[c] * (t[k] - t[k - 1])), tol=float(tol[c])))
+                    break
+                if np.any(d > tol):
+                    c = int(np.argmax(d / tol))
+                    drifts.append((float(d[c] / tol[c]), dict(info, slot=a_ + c, mass_at_exit=float(ref[c]), mass_before=float(q[k - 1, a_ + c]),
+                                                              mass=float(q[k, a_ + c]), step_change=float(d[c]), step_change_over_tol=float(d[c] / tol[c]))))
+            else:
+                cum = np.abs(q[k, a_:e_] - q[kg + WINDOW, a_:e_])
+                if np.any(d > 1.5 * tol) or np.any(cum > 5. * tol):
+                    c = int(np.argmax(np.maximum(d / (1.5 * tol), cum / (5. * tol))))
+                    ctx.violation('exit-masses-change', 'recorded masses of a particle still change more than %d stored steps after it left the plume (per step > 1.5 (rtol |m| + atol) or in total > 5 (rtol |m| + atol))' % WINDOW,
+                                  dict(info, slot=a_ + c, mass_at_exit=float(ref[c]), mass=float(q[k, a_ + c]), step_change=float(d[c]),
+                                       change_since_window=float(cum[c]), tol=float(tol[c])))
+                    break
     # ---- stop reason ---------------------------------------------------------------------------------------
     rel = scn['release']
-    dr = _ambient_density_difference(tam, prf, q)
     kstop, reasons = replay_python(q, dr, float(bpm.D), float(rel['sd_max']))
     if n < 2:
         ctx.violation('stop-without-documented-reason', 'simulation returned without taking a step', dict(base))
@@ -292,7 +351,7 @@ def check_simulation(ctx, scn, bpm, prf, parts, tam):
             neutr = _nonzero_sign_changes(dr)
             ok = bool(peaks) and any(kk >= peaks[0] for kk in neutr)
             if not ok:
-                ctx.violation('neutral-stop-before-peak',
+                ctx.violation('neutral-stop-before-peak' if rel['phi_0'] == 0. else 'neutral-stop-without-peak',
                               'simulation stopped by the neutral-buoyancy counter although the plume never passed a peak (vertical momentum never reversed) / never re-crossed neutral buoyancy after it',
                               dict(base, phi_0=rel['phi_0'], Vj=rel['Vj'], Jz_first=[float(v) for v in q[:3, 5]],
                                    drho_first=[float(v) for v in dr[:3]], t_end=float(t[-1]), s_end=float(q[-1, 10]),
@@ -330,6 +389,149 @@ def corrections_case(ctx, tam, parts, lay, row):
         pt.integrate, pt.p_fac = fl, pf
     return {'before': before, 'after': after, 'flags': flags, 'pfz': pfz, 'flags_after': flags_after,
             'line': req('Lmp.correct', *args)}
+
+
+
+# ---------------------------------------------------------------------------------------------
+# the REAL loop of lmp.calculate driven by a stubbed integrator on crafted observation sequences
+# ---------------------------------------------------------------------------------------------
+
+class _FakeLocal(object):
+    """stands in for LagElement: the stop tests read Jz, rho_a, rho, D only"""
+    def __init__(self, D):
+        self.D = D
+        self.Jz = self.rho_a = self.rho = 0.
+
+    def update(self, t, q, profile, p, particles=[]):
+        self.Jz, self.rho_a, self.rho = float(q[5]), float(q[11]), float(q[12])
+
+
+def _row(Jz, dr, s, z):
+    q = np.zeros(13)
+    q[0], q[5], q[9], q[10], q[11], q[12] = 1., Jz, z, s, 1000. + dr, 1000.
+    return q
+
+
+def run_real_loop(tam, rowfn, nsucc, D, sd_max):
+    """call the real lmp.calculate with scipy's ode replaced by a stub that returns rowfn(k) as the state after step k;
+    nsucc = number of steps after which r.successful() turns False; returns the number of stored rows"""
+    lmp = tam['lmp']
+
+    class FakeODE(object):
+        def __init__(self, f):
+            self.k = 0
+
+        def set_integrator(self, *a, **kw):
+            return self
+
+        def set_initial_value(self, y, t):
+            self.y, self.t = np.array(y, dtype=float), t
+            return self
+
+        def set_f_params(self, *a):
+            pass
+
+        def successful(self):
+            return self.k < nsucc
+
+        def integrate(self, t, step=True):
+            self.k += 1
+            self.y, self.t = np.array(rowfn(self.k), dtype=float), t
+
+    saved = lmp.integrate
+    lmp.integrate = types.SimpleNamespace(ode=FakeODE)
+    try:
+        q0 = np.array(rowfn(0), dtype=float)
+        loc = _FakeLocal(D)
+        loc.update(0., q0, None, None)
+        with scen_bpm.silence():
+            t, q = lmp.calculate(0., q0, loc, None, None, [], None, 1., sd_max)
+    finally:
+        lmp.integrate = saved
+    return len(t), q
+
+
+def stop_logic_cases(ctx):
+    """(name, rows or generator, nsucc, D, sd_max): every threshold at its edge, every ending"""
+    r = ctx.rng
+    up = lambda k: _row(-1., 1., float(k), 100. - 0.001 * k)        # rising, buoyant, advancing: nothing fires
+    cases = []
+    seq = lambda rows: (lambda k: rows[min(k, len(rows) - 1)])
+    # distance: s/D == sd_max does NOT stop (>), the next row does
+    cases.append(('distance-edge', seq([_row(-1, 1, 0, 50), _row(-1, 1, 5, 49), _row(-1, 1, 10, 48), _row(-1, 1, 10.5, 47), _row(-1, 1, 11, 46)]), 99, 2., 5.))
+    # surface: z = 1e-12 does not stop, z == 0 stops (<=)
+    cases.append(('surface-edge', seq([_row(-1, 1, 0, 3), _row(-1, 1, 1, 1e-12), _row(-1, 1, 2, 0.), _row(-1, 1, 3, -1.)]), 99, 1., 1e9))
+    cases.append(('surface-negative', seq([_row(-1, 1, 0, 3), _row(-1, 1, 1, -0.5), _row(-1, 1, 2, -1.)]), 99, 1., 1e9))
+    # stall: equal arc length in consecutive rows
+    cases.append(('stall', seq([_row(-1, 1, 0, 50), _row(-1, 1, 1, 49), _row(-1, 1, 1, 48), _row(-1, 1, 2, 47)]), 99, 1., 1e9))
+    # neutral buoyancy: a density reversal BEFORE the peak does not count, the first one at/after the peak stops
+    cases.append(('neutral-after-peak', seq([_row(-1, 1, 0, 50), _row(-1, -1, 1, 49), _row(1, -1, 2, 48), _row(1, -1, 3, 49), _row(1, 1, 4, 50), _row(1, 1, 5, 51)]), 99, 1., 1e9))
+    cases.append(('neutral-same-step', seq([_row(-1, 1, 0, 50), _row(-1, 1, 1, 49), _row(1, -1, 2, 48), _row(1, -1, 3, 49)]), 99, 1., 1e9))
+    cases.append(('no-peak-no-stop', seq([_row(-1, 1, 0, 50), _row(-1, -1, 1, 49), _row(-1, 1, 2, 48), _row(-1, -1, 3, 47), _row(-1, -1, 4, 46)] + [up(k) for k in range(5, 12)]), 9, 1., 1e9))
+    # integrator failure: nothing fires, r.successful() turns False after 3 steps
+    cases.append(('integrator-failure', up, 3, 1., 1e9))
+    # iteration cap: nothing fires for 50 000 passes
+    cases.append(('cap', up, 10 ** 9, 1., 1e9))
+    for i in range(ctx.n(20, 200)):
+        nrow = r.randint(3, 25)
+        Jz, dr, s, z = r.choice([-1., 1.]), r.choice([-1., 1.]), 0., r.uniform(1., 20.)
+        D, sd = r.choice([0.5, 1., 2.]), r.choice([4., 8., 1e9])
+        rows = []
+        for k in range(nrow):
+            rows.append(_row(Jz, dr, s, z))
+            if r.random() < 0.15:
+                Jz = -Jz
+            if r.random() < 0.1:
+                Jz = 0.
+            if r.random() < 0.15:
+                dr = -dr
+            s += r.choice([1., 1., 0.5, 0.])
+            if r.random() < 0.2:
+                s = sd * D if r.random() < 0.5 else s
+            z -= r.choice([1., 2., 0.5])
+            if r.random() < 0.1:
+                z = 0.
+        rows += [_row(Jz, dr, s + 1. + k, z) for k in range(3)]
+        cases.append(('random-%d' % i, seq(rows), r.choice([99, r.randint(1, nrow)]), D, sd))
+    return cases
+
+
+def check_stop_logic(ctx, tam, lean_ok):
+    cases = stop_logic_cases(ctx)
+    lines, want = [], []
+    for name, rowfn, nsucc, D, sd_max in cases:
+        nrows, q = run_real_loop(tam, rowfn, nsucc, D, sd_max)
+        ctx.evaluations += 1
+        dr = q[:, 11] - q[:, 12]
+        # what the documented tests say on the rows the stub produces (as many as the real loop could have used)
+        nmax = min(nsucc, CAP + 1)
+        qfull = np.array([rowfn(k) for k in range(min(nmax, 40) + 1)]) if name != 'cap' else None
+        if name == 'cap':
+            exp_rows, exp = CAP + 2, ['cap']
+        else:
+            kstop, rs = replay_python(qfull, qfull[:, 11] - qfull[:, 12], D, sd_max)
+            exp_rows, exp = ((kstop + 1), rs) if kstop is not None else (nmax + 1, ['integrator-failed'])
+        ctx.count('stop-logic:' + (name if not name.startswith('random') else 'random') + ':' + '+'.join(exp))
+        if nrows != exp_rows:
+            ctx.violation('stop-logic:' + (name if not name.startswith('random') else 'random'),
+                          'the loop of lmp.calculate, driven by a stubbed integrator, stored %d rows where the documented stop tests (neutral after peak, s/D > sd_max, k >= 50000, z <= 0, stalled) give %d (%s)'
+                          % (nrows, exp_rows, '+'.join(exp)),
+                          {'case': name, 'D': D, 'sd_max': sd_max, 'steps_before_integrator_failure': nsucc,
+                           'rows_Jz_dr_s_z': [[float(x[5]), float(x[11] - x[12]), float(x[10]), float(x[9])] for x in (qfull if qfull is not None else q[:5])]})
+        if name == 'cap':
+            o0 = rowfn(0)
+            o1 = rowfn(1)
+            lines.append(req('Lmp.calculateConst', CAP, nsucc if nsucc < 10 ** 8 else CAP + 5,
+                             [o0[5], o1[5], o0[11] - o0[12], o1[11] - o1[12], o1[10], o0[10], o1[9], D, sd_max]))
+        else:
+            obs = [[qfull[k, 5], qfull[k + 1, 5], qfull[k, 11] - qfull[k, 12], qfull[k + 1, 11] - qfull[k + 1, 12], qfull[k + 1, 10], qfull[k, 10],
+                    qfull[k + 1, 9], D, sd_max] for k in range(len(qfull) - 1)]
+            lines.append(req('Lmp.calculate', CAP, nsucc, *obs))
+        want.append((name, nrows))
+    floors = ['distance', 'surface', 'stall', 'neutral', 'cap', 'integrator-failed']
+    seen = {f: sum(v for k, v in ctx.hist.items() if k.startswith('stop-logic:') and f in k.split(':')[-1].split('+')) for f in floors}
+    ctx.oblige('floor: the stubbed-integrator runs of the real loop end in every way (%r)' % seen, all(v >= 1 for v in seen.values()), repr(seen))
+    return lines, want
 
 
 def _tamoc():
@@ -395,13 +597,14 @@ def run(ctx, lean_ok):
         ctx.oblige('at least one complete simulation', False, 'every scenario raised')
         return
     for _ratio, case in sorted(all_drifts, key=lambda x: -x[0]):
-        ctx.violation('exit-masses-drift', 'recorded masses of a particle keep changing after it left the plume, by more than the tolerance the solver was given',
+        ctx.violation('exit-masses-drift', 'within the first %d stored steps after a particle left the plume its recorded masses still move by more than rtol*|m| + atol per step (integrator history), though no faster than before the exit' % WINDOW,
                       case)
     if all_drifts:
-        ctx.notes.append('%d exited particles moved by more than steps*sqrt(N)*(rtol*|m|+atol) after the exit; worst %.1f times that allowance'
-                         % (len(all_drifts), max(x[0] for x in all_drifts)))
+        ctx.notes.append('%d stored steps (first %d after an exit) moved a mass slot by more than rtol*|m|+atol; worst %.1f times that; largest relative step %.3g'
+                         % (len(all_drifts), WINDOW, max(x[0] for x in all_drifts),
+                            max(x[1]['step_change'] / abs(x[1]['mass_at_exit']) for x in all_drifts if x[1]['mass_at_exit'] != 0)))
     ctx.notes.append('worst relative drift of a compound total / inert mass over all simulations: %.3g' % worst)
-    ctx.notes.append('largest relative change of a mass slot after its particle left the plume: %.3g' % worst_frozen)
+    ctx.notes.append('largest per-step change of a mass slot after its particle left the plume, in units of rtol*|m|+atol: %.3g' % worst_frozen)
 
     # ---- corrections: property of the real functions (heat / position slots only) ----------------------------
     for scn, k, cc in corr:
@@ -429,12 +632,26 @@ def run(ctx, lean_ok):
             ctx.violation('exit-flag', 'integrate flag after correct_particle_tracking is not (False if p_fac == 0 else unchanged)',
                           {'scenario': scn, 'row': k, 'flags': cc['flags'], 'p_fac_zero': cc['pfz'], 'flags_after': cc['flags_after']})
 
+    # ---- the real stop logic on crafted observation sequences (stubbed integrator) ------------------------------
+    sl_lines, sl_want = check_stop_logic(ctx, tam, lean_ok)
+
     # ---- Lean: replay of the loop control, corrections ----------------------------------------------------------
     if not lean_ok:
         return
-    out = run_driver(ctx, 'C04', lines + [cc['line'] for _s, _k, cc in corr])
+    out = run_driver(ctx, 'C04', lines + [cc['line'] for _s, _k, cc in corr] + sl_lines)
     if out is None:
         return
+    nbad = 0
+    for (name, nrows), o in zip(sl_want, out[len(lines) + len(corr):]):
+        # rows stored by the real loop = passes + 1; the model reports the pass counter
+        ok = isinstance(o, list) and len(o) == 5 and o[1] + 1 == nrows
+        if not ok:
+            nbad += 1
+            if nbad <= 3:
+                ctx.broken.append(('correspondence', 'Model.Lmp.calculate vs the real loop of lmp.calculate (stubbed integrator)',
+                                   'case %s: model %r, real loop stored %d rows' % (name, o, nrows)))
+    ctx.oblige('correspondence Model.Lmp.calculate == real lmp.calculate loop on %d crafted observation sequences (all thresholds at their edges, cap, stall, integrator failure)' % len(sl_want),
+               nbad == 0, '%d sequences disagree' % nbad)
     nbad = 0
     for (scn, res), o in zip(sims, out[:len(sims)]):
         want_kind = 'stopped' if res['kstop'] is not None else 'failed'
@@ -472,7 +689,7 @@ def replay(ctx, path):
         bpm, prf, parts = scen_bpm.simulate(scn)
         res = check_simulation(ctx, scn, bpm, prf, parts, tam)
     for _ratio, case in (res['drifts'] if res else []):
-        ctx.violation('exit-masses-drift', 'recorded masses of a particle keep changing after it left the plume, by more than the tolerance the solver was given', case)
+        ctx.violation('exit-masses-drift', 'recorded masses still move by more than rtol*|m|+atol per step within the first stored steps after the exit (integrator history)', case)
     for v in ctx.violations:
         print('%s: %s %r' % (v['key'], v['what'], {k: x for k, x in v['case'].items() if k != 'scenario'}))
     print('rows %d, %d violation(s) reproduced' % (len(bpm.t), len(ctx.violations)))
